@@ -1,4 +1,4 @@
-\* Universe L: ONE soft module, trunk 6x6 in the middle of a 10x10 die, up to two branches of very unequal length (1x1 and 4x2, at offset 0 or 1: a short branch directly followed by a long one), ratio limit 2.
+\* Universe X: ONE hard or fixed module on a 10x10 die whose GIVEN rectangles may exceed the ratio limit 2 (trunk 6x2 or 4x4, branches 3x1 / 2x1): no configuration with that shape is legal, its own configuration violates exactly `ratio`.
 SPECIFICATION Spec
 CONSTANTS
   DW = 10
@@ -7,10 +7,10 @@ CONSTANTS
   RQ = 1
   TXS = {2}
   TYS = {2}
-  TrunkSizes <- TrunkSizes6
-  BranchSizes <- BranchSizesL
-  BranchOffs = {0, 1}
-  Kinds = {"soft"}
+  TrunkSizes <- TrunkSizesX
+  BranchSizes <- BranchSizesX
+  BranchOffs = {0, 99}
+  Kinds = {"hard", "fixed"}
   Slacks = {0}
   MaxMods = 1
   MaxBr = 2
@@ -21,7 +21,7 @@ CONSTANTS
   CHAIN = FALSE
   WILD = FALSE
   FIXMODEL = "intended"
-  ANYRATIO = FALSE
+  ANYRATIO = TRUE
   BASEMOD = 2
   EMIT = FALSE
 INVARIANT InvShape
